@@ -147,7 +147,7 @@ private:
     void drain();
     void emit(const Item& op, Node& node, std::vector<InFlight>& frames);
     void applyFaults(const Item& op, std::vector<InFlight>& frames, std::vector<InFlight>& extra);
-    bool applySetField(Bytes& b, int field, int idx, int64_t val);
+    bool applySetField(Bytes& b, int field, int idx, int64_t val, bool rel = false);
     void deliver(InFlight& f);
     void checkKept(bool all);
     void compareStatus(const char* when);
